@@ -19,6 +19,7 @@ EXPLANATION = (
     "positive one; I5 SimpleDDNNFEvaluator.evaluate conditions on the query by _set_value and restores exactly the saved pair with _reset_value, "
     "and normalises by the evidence weight whenever evidence is present; _set_value writes (w, zero) / (zero, w). Numerical agreement of back-ends "
     "and semirings is value-level and not decided."
+    " Added after seed round 6: I6 every semiring whose plus is a true sum (a + b, log-sum-exp, '(%s + %s)') resolves is_dsp() to True, the flag by which get_evaluatable picks a compiled circuit."
 )
 TECHNIQUE = "static analysis: protocol conformance over the class hierarchy, sibling agreement of circuit folds, decision tables"
 LEVEL_TEXT = EXPLANATION
